@@ -13,7 +13,11 @@
 (* Requirement: through the adapter the decoder/encoder sees exactly the   *)
 (* slice behaviour (request of n bytes succeeds iff n bytes are left and   *)
 (* consumes exactly n; every written byte arrives, in order).  AVariant    *)
-(* names the slips of two seeded changes: "single_read", "single_write".   *)
+(* names the slips of seeded changes: "single_read", "single_write",       *)
+(* "fill_at_zero" (a hand-written fill loop that counts what it has but     *)
+(* always passes the whole buffer, so later pieces overwrite earlier ones   *)
+(* and more is pulled than asked), "accept_short" (any non-empty piece is   *)
+(* taken for the whole request).                                            *)
 (***************************************************************************)
 EXTENDS Naturals, Sequences
 
@@ -26,16 +30,18 @@ VARIABLES mode,       \* "read" | "write"
           want,       \* size of the request in progress (0 = none)
           got,        \* bytes of it transferred so far
           sink,       \* what arrived in the sink
+          buf,        \* the caller's buffer of the read in progress
           status      \* "idle" | "busy" | "err"
-vars == <<mode, pos, want, got, sink, status>>
+vars == <<mode, pos, want, got, sink, buf, status>>
 
-Init == mode \in {"read", "write"} /\ pos = 0 /\ want = 0 /\ got = 0 /\ sink = <<>> /\ status = "idle"
+Init == mode \in {"read", "write"} /\ pos = 0 /\ want = 0 /\ got = 0 /\ sink = <<>> /\ buf = <<>> /\ status = "idle"
 
 \* the decoder / encoder issues a request of n bytes
 Request(n) ==
   /\ status = "idle" /\ n >= 1
   /\ mode = "write" => pos + n <= Len(Data)
   /\ want' = n /\ got' = 0 /\ status' = "busy"
+  /\ buf' = [i \in 1..n |-> 0]
   /\ UNCHANGED <<mode, pos, sink>>
 
 \* one call on the underlying reader / sink: it transfers between 1 and MaxChunk bytes (0 at end of data)
@@ -44,11 +50,15 @@ Transfer(k) ==
   /\ IF mode = "read"
      THEN LET avail == Len(Data) - pos
               m1 == IF k > avail THEN avail ELSE k
-              kk == IF m1 > want - got THEN want - got ELSE m1
+              room == IF AVariant = "fill_at_zero" THEN want ELSE want - got       \* into[..] instead of into[got..]
+              kk == IF m1 > room THEN room ELSE m1
+              at == IF AVariant = "fill_at_zero" THEN 0 ELSE got
           IN /\ (avail > 0 /\ want - got > 0) => kk >= 1
              /\ pos' = pos + kk /\ got' = got + kk
              /\ sink' = sink
-             /\ status' = IF got + kk = want THEN "idle"
+             /\ buf' = [i \in 1..want |-> IF at < i /\ i <= at + kk THEN Data[pos + i - at] ELSE buf[i]]
+             /\ status' = IF AVariant = "accept_short" THEN (IF kk = 0 THEN "err" ELSE "idle")
+                          ELSE IF got + kk >= want THEN "idle"
                           ELSE IF kk = 0 \/ AVariant = "single_read" THEN "err"     \* unexpected end / gave up after one call
                           ELSE "busy"
      ELSE LET kk == IF k > want - got THEN want - got ELSE k IN
@@ -57,6 +67,7 @@ Transfer(k) ==
           /\ IF AVariant = "single_write"
              THEN pos' = pos + want /\ got' = want /\ status' = "idle"               \* the rest of the request is dropped
              ELSE pos' = pos + kk /\ got' = got + kk /\ status' = (IF got + kk = want THEN "idle" ELSE "busy")
+          /\ buf' = buf
   /\ UNCHANGED <<mode, want>>
 
 Next == (\E n \in 1..(Len(Data) + 1) : Request(n)) \/ (\E k \in 0..MaxChunk : Transfer(k))
@@ -66,6 +77,8 @@ Spec == Init /\ [][Next]_vars
 ReadLikeSlice == (mode = "read" /\ status = "err") => want > Len(Data) - (pos - got)
 \* a completed request consumed exactly what was asked
 ReadExact == (mode = "read" /\ status = "idle") => got = want
+\* ... and the buffer holds exactly the next `want` bytes of the data
+ReadContent == (mode = "read" /\ status = "idle" /\ want > 0) => (pos >= want /\ buf = SubSeq(Data, pos - want + 1, pos))
 \* everything handed over so far has arrived, in order
 WriteComplete == (mode = "write" /\ status = "idle") => sink = SubSeq(Data, 1, pos)
 =============================================================================
